@@ -339,7 +339,7 @@ func TestC19(t *testing.T) {
 	if len(names) == 0 {
 		t.Fatalf("INFRA: no configuration found under internal/gontainer")
 	}
-	setRapidChecks(pick(10, 120))
+	setRapidChecks(pick(25, 400))
 	rapid.Check(t, func(rt *rapid.T) {
 		if deadlinePassed() {
 			rt.Skip("budget used up")
